@@ -55,6 +55,7 @@ fn main() {
         "seeds" if args.len() >= 5 => altrios_verif::engine::run::seeds_main(find(&args[2]), &args[3], args[4].parse().unwrap()),
         "from-bytes" if args.len() >= 4 => altrios_verif::engine::run::from_bytes_main(find(&args[2]), &args[3]),
         "one" if args.len() >= 5 => one_main(find(&args[2]), &args[3], &args[4]),
+        "c18-once" if args.len() >= 3 => props::c18::once_main(&args[2]),
         "probe-walk" if args.len() >= 3 => props::train_run::probe_walk_main(&args[2]),
         _ => usage(),
     };
